@@ -88,6 +88,14 @@ func c03StageSrc(s c03Stage) string {
 		return s.K
 	case "prefix", "suffix", "match":
 		return s.K + " " + s.W
+	case "range": // a: [1..N]  ->  the lines 1 .. N
+		return fmt.Sprintf("a: [1..%d]", s.N)
+	case "tryeach": // loop whose body holds a try block that aborts at a non-last statement
+		pre := ""
+		if s.W != "" {
+			pre = "out " + s.W + "; "
+		}
+		return "foreach " + s.X + " { " + s.V + " { " + pre + "false; out never }; out $" + s.X + " }"
 	case "fdef": // definition of a SLOW stderr writer: N forks, N stderr lines W1..WN
 		return fmt.Sprintf("function %s { a [1..%d] -> foreach i { err \"%s$i\" } }", s.X, s.N, s.W)
 	case "fcall":
@@ -119,6 +127,20 @@ func c03StageCoq(s c03Stage) string {
 		return coqlit.App("SLines", coqlit.App("LWrap", coqlit.Bytes(s.W), "[]"))
 	case "suffix":
 		return coqlit.App("SLines", coqlit.App("LWrap", "[]", coqlit.Bytes(s.W)))
+	case "range":
+		var b strings.Builder
+		for i := 1; i <= s.N; i++ {
+			fmt.Fprintf(&b, "%d\n", i)
+		}
+		return coqlit.App("SOut", coqlit.Bytes(b.String()))
+	case "tryeach":
+		// what the aborted block emitted: `out W` (if any) and the failing `false` itself, which
+		// prints "false" without a newline; `out never` never runs
+		pre := "false"
+		if s.W != "" {
+			pre = s.W + "\n" + pre
+		}
+		return coqlit.App("SLines", coqlit.App("LTryEach", coqlit.Bytes(s.X), coqlit.Bytes(pre)))
 	case "fdef":
 		return "(SOut [])" // defines the function: writes nothing, exit 0
 	case "fcall":
@@ -363,6 +385,22 @@ func (c03) Gen(seed int64, tier string, emit func(any)) {
 			}
 		}
 	}
+	// loop stage whose body runs a try / tryerr / trypipe block that aborts at a non-last
+	// statement, piped into a stage that reads CONCURRENTLY: every one of the N lines must arrive
+	// (a stream reference lost per aborted block makes the reader see EOF early, schedule dependent)
+	readers := []c03Stage{{K: "each", W: "got ", V: "", X: "l"}, {K: "cast"}, {K: "prefix", W: "x"}, {K: "match", W: "a"}}
+	tl := 0
+	for _, kind := range []string{"try", "tryerr", "trypipe"} {
+		for _, n := range []int{40, 120, 300} {
+			pre := ""
+			if tl%2 == 1 {
+				pre = "p"
+			}
+			emit(mk("tryloop", []c03Pipe{{"Seq", []c03Stage{{K: "range", N: n}, {K: "tryeach", X: "i", W: pre, V: kind}, readers[tl%len(readers)]}}}, int64(300+tl)))
+			tl++
+		}
+	}
+	emit(mk("tryloop", []c03Pipe{{"Seq", []c03Stage{{K: "range", N: 200}, {K: "tryeach", X: "i", V: "try"}, {K: "each", W: "got ", X: "l"}, {K: "msort"}}}, {"Seq", []c03Stage{{K: "out", W: "END"}}}}, 320))
 	emit(mk("tail", []c03Pipe{{"Seq", []c03Stage{{K: "err", W: "a"}, {K: "out", W: "b"}, {K: "out", W: "c"}}}, {"Seq", []c03Stage{{K: "err", W: "END"}}}}, 150))
 	emit(mk("tail", []c03Pipe{{"Seq", []c03Stage{{K: "out", W: "x"}, {K: "err", W: "a"}, {K: "tout", W: "b"}}}, {"Seq", []c03Stage{{K: "err", W: "END"}}}, {"Seq", []c03Stage{{K: "out", W: "z"}}}}, 151))
 	r := rand.New(rand.NewSource(seed))
